@@ -262,7 +262,10 @@ Definition n_sizes := fix sizes (l : list pexpr) : nat := match l with [] => O |
 Lemma un_step_bits op v r : un_step op v = CVal r -> bits r <= Z.max 1 (bits v).
 Proof.
   destruct op; cbn [un_step]; intro H.
-  - inversion H; subst. lia.
+  - apply lift_val in H. unfold py_un in H. destruct v; cbn [as_num] in H; try discriminate; inversion H; subst; cbn.
+    + lia.
+    + destruct b; cbn; lia.
+    + lia.
   - apply lift_val in H. unfold py_un in H. destruct v; cbn [as_num] in H; try discriminate; inversion H; subst; cbn.
     + rewrite Z.abs_opp. lia.
     + destruct b; cbn; lia.
